@@ -120,6 +120,9 @@ package client
 //@   assigns callback
 //@   invariant [C27] hit_matches: callback != nil ==> (exists k iface, v iface :: inRange(k, v) && istype(v, *messageHandler) &&
 //@      v.(*messageHandler).callback == callback && matches(v.(*messageHandler).route, route))
+// completeness of the iteration: an entry is passed over only if its filter does not match, and the iteration stops only with a hit
+//@   ensures [C27] passes_over_only_what_does_not_match: result ==> !matches(value.(*messageHandler).route, route)
+//@   ensures [C27] stops_at_a_match: !result ==> matches(value.(*messageHandler).route, route) && callback == value.(*messageHandler).callback
 
 //@ func (*messageHandlers).handle
 //@   nopanic [C25]
@@ -129,6 +132,10 @@ package client
 //@   assigns anycalls(), mhs.dispatchN
 //@   ensures [C16,C27] counted: mhs.dispatchN == old(mhs.dispatchN) + 1
 //@   ensures [C27] at_most_one_callback: forall f MessageHandlerFunc :: calls(f) == old(calls(f)) || calls(f) == old(calls(f)) + 1
+// (a subscription stored with a nil callback has nothing to invoke; Subscribe accepts one)
+//@   ensures [C27] a_matching_subscription_is_served: (forall f MessageHandlerFunc :: calls(f) == old(calls(f))) ==>
+//@      (forall k iface :: (k in mhs.handlers) ==> !matches(smGet(mhs.handlers, k).(*messageHandler).route, levels)) ||
+//@      (exists k iface :: (k in mhs.handlers) && matches(smGet(mhs.handlers, k).(*messageHandler).route, levels) && smGet(mhs.handlers, k).(*messageHandler).callback == nil)
 //@   ensures [C27] only_a_matching_subscription: forall f MessageHandlerFunc :: calls(f) != old(calls(f)) ==>
 //@      (exists k iface :: (k in mhs.handlers) && smGet(mhs.handlers, k).(*messageHandler).callback == f &&
 //@         matches(smGet(mhs.handlers, k).(*messageHandler).route, levels))
